@@ -20,6 +20,7 @@ CONSTANTS
   Concurrent = {conc}
   WithRejects = {rej}
   ExportOneIn = {one_in}
+  RecoveryCrashes = {rcrash}
 INVARIANTS NoViolation CacheCounterExact ChunksAbut DurableIsPrefix Export {extra_inv}
 VIEW View
 ALIAS Alias
@@ -27,7 +28,7 @@ CHECK_DEADLOCK FALSE
 """
 D = dict(votes="C_Votes", appids="C_AppIds", payloads="C_Payloads", trunc="C_TruncIdx", purge="C_PurgeIds",
          commit="C_CommitIds", users="C_Users", cfgs="C_Cfgs", calls=3, flush=1, reopen=0, crash=0, faults=0,
-         conc="FALSE", rej="FALSE", one_in=1, extra_inv="")
+         conc="FALSE", rej="FALSE", one_in=1, extra_inv="", rcrash="FALSE")
 T = {
     # sequential instances (module MC_Seq)
     "MC_C01_q": dict(calls=3, flush=1),
@@ -50,6 +51,8 @@ T.update({
     "MC_C04_q": dict(calls=2, flush=2, faults=1, conc="TRUE", cfgs="C_CfgsRot"),
     "MC_C04_t": dict(calls=3, flush=2, faults=2, conc="TRUE", cfgs="C_CfgsRot"),
     "MC_Crash_q": dict(calls=2, flush=1, crash=1, conc="TRUE", cfgs="C_CfgsCrash", one_in=20),
+    "MC_RCrash_q": dict(calls=1, flush=1, crash=1, conc="TRUE", cfgs="C_CfgsCrash", one_in=4, rcrash="TRUE"),
+    "MC_RCrash_t": dict(calls=2, flush=1, crash=1, conc="TRUE", cfgs="C_CfgsCrash", one_in=40, rcrash="TRUE"),
     "MC_Crash_t": dict(calls=3, flush=1, crash=1, conc="TRUE", cfgs="C_CfgsCrash", one_in=200),
     "MC_C14_q": dict(calls=3, flush=1, reopen=1, conc="TRUE", cfgs="C_CfgsRot"),
     "MC_C14_t": dict(calls=3, flush=2, reopen=2, conc="TRUE", cfgs="C_CfgsRot"),
